@@ -399,7 +399,33 @@ func mutate(r *rng.R, ls []string, donors [][]string) ([]string, string) {
 		}
 		return out, fmt.Sprintf("resize line %d", i+1)
 	case k == 19 || k >= 22: // consistent semantic edits that reach the deeper guards
-		switch r.Intn(7) {
+		switch r.Intn(8) {
+		case 7:
+			// the four-column addenda count in front of the receiving company of a CTX entry without addenda records,
+			// blank or not a number: it counts as zero addenda
+			var idx []int
+			ctx := false
+			for k, l := range ls {
+				if len(l) >= 53 && l[0] == '5' {
+					ctx = l[50:53] == "CTX"
+				}
+				if ctx && len(l) >= 79 && l[0] == '6' && l[78] == '0' {
+					idx = append(idx, k)
+				}
+			}
+			if len(idx) == 0 {
+				return ls, "noop"
+			}
+			i := rng.Pick(r, idx)
+			for q := 0; q < 58; q++ {
+				if ls[i][q] >= 0x80 {
+					return ls, "noop"
+				}
+			}
+			out := append([]string{}, ls...)
+			v := rng.Pick(r, []string{"    ", "    ", "ABCD", "00 0", "-001"})
+			out[i] = setCols(ls[i], 54, 58, v)
+			return out, fmt.Sprintf("CTX addenda count of line %d -> %q", i+1, v)
 		case 5:
 			// a routing number of the file header written zero-filled ("0231380104") instead of blank-filled
 			// (" 231380104"): ten characters that the header parser trims back to nine
